@@ -8,4 +8,5 @@ CONSTANTS Tables = {"a"}
           MaxCrashes = 2
           TailBeyondSync = TRUE
 INVARIANTS FailsOnlyKnown Aligned ReadableCorrect Durable Monotone IndexOK
+VIEW View
 CHECK_DEADLOCK FALSE
